@@ -59,9 +59,11 @@ func (c *client) Dial(ctx context.Context) error {
 			return
 		}
 
+		vhook("dial.dialed", c, nil)
 		c.connM.Lock()
 		c.conn = conn
 		c.connM.Unlock()
+		vhook("dial.published", c, nil)
 
 		// time out send hello if it take long
 		if deadline, ok := ctx.Deadline(); ok {
